@@ -15,34 +15,39 @@ from .common import REPO
 FILES = ["_extract.py", "_glue.py", "_lowlevel.py", "_lowlevel_cpython_311.py", "_customization.py",
          "_code_dispatch.py", "_types.py", "_util.py"]
 RESUME_ATTRS = {"send", "throw", "close", "aclose", "asend", "athrow", "switch", "__next__"}
-# function -> receivers it may resume (names as written)
+# function -> the resume sites it may contain, as a multiset of (method, receiver shape): the names of
+# locals do not matter (a rename is not an alarm), an additional site or a different method is
 ALLOWED_SITES = {
-    ("_glue.py", "glue_builtins"): {"agen", "coro", "agen.aclose()"},
-    ("_glue.py", "glue_async_generator"): {"agen_iter", "asend_coro"},
-    ("_lowlevel.py", "_check_trickery_available"): {"gen"},
-    ("_lowlevel.py", "_parse_varint"): {"it"},
-    ("_customization.py", "__next__"): {"self.inner"},
-    ("_extract.py", "extract_iter"): {"it"},
-    ("_extract.py", "extract"): {"it"},
-    ("_extract.py", "extract_child"): {"it"},
-    ("_extract.py", "extract_outermost"): {"extract_iter(stackitem, errors)"},
+    ("_glue.py", "glue_builtins"): {("asend", "name"): 1, ("athrow", "name"): 1, ("aclose", "name"): 1,
+                                    ("send", "call"): 1, ("close", "name"): 1},
+    ("_glue.py", "glue_async_generator"): {("asend", "name"): 1, ("close", "name"): 1},
+    ("_lowlevel.py", "_check_trickery_available"): {("send", "name"): 1},
+    ("_lowlevel.py", "_parse_varint"): {("next", "name"): 2},
+    ("_customization.py", "__next__"): {("next", "selfattr"): 1},
+    ("_extract.py", "extract_iter"): {("next", "name"): 1},
+    ("_extract.py", "extract_child"): {("next", "name"): 1},
+    ("_extract.py", "extract_outermost"): {("next", "call"): 1},
 }
 ALLOWED_GLOBALS = {("_lowlevel.py", "inspect_frame"), ("_lowlevel.py", "_can_use_trickery")}
 ALLOWED_STORES = {("_glue.py", "builtin_glue_pending"), ("_glue.py", "_sys_modules_len_cache"),
                   ("_extract.py", "current_options"), ("_extract.py", "self")}
 
 
-def _src(node):
-    try:
-        return ast.unparse(node)
-    except Exception:
-        return "?"
+def _shape(node):
+    if isinstance(node, ast.Name):
+        return "name"
+    if isinstance(node, ast.Call):
+        return "call"
+    if isinstance(node, ast.Attribute) and isinstance(node.value, ast.Name) and node.value.id == "self":
+        return "selfattr"
+    return "other"
 
 
 def compute():
     sites_ok = True
     state_ok = True
     seen_sites = 0
+    used = {}
     for fn in FILES:
         path = os.path.join(REPO, "stackscope", fn)
         try:
@@ -63,14 +68,19 @@ def compute():
             if isinstance(node, ast.Call):
                 recv = None
                 if isinstance(node.func, ast.Attribute) and node.func.attr in RESUME_ATTRS:
-                    recv = _src(node.func.value)
+                    recv = (node.func.attr, _shape(node.func.value))
                 elif isinstance(node.func, ast.Name) and node.func.id == "next" and node.args:
-                    recv = _src(node.args[0])
+                    recv = ("next", _shape(node.args[0]))
                 if recv is not None:
                     seen_sites += 1
-                    ok = any((fn, f) in ALLOWED_SITES and recv in ALLOWED_SITES[(fn, f)] for f in funcs)
-                    if not ok:
+                    owner = next((f for f in reversed(funcs) if (fn, f) in ALLOWED_SITES), None)
+                    if owner is None:
                         sites_ok = False
+                    else:
+                        k = (fn, owner, recv)
+                        used[k] = used.get(k, 0) + 1
+                        if used[k] > ALLOWED_SITES[(fn, owner)].get(recv, 0):
+                            sites_ok = False
             if isinstance(node, ast.Global) and funcs:
                 for n in node.names:
                     if (fn, n) not in ALLOWED_GLOBALS:
@@ -106,19 +116,12 @@ def _trim_fact():
     if fn is None:
         return False
 
-    def stored(nodes):
-        return {x.id for n in nodes for x in ast.walk(n) if isinstance(x, ast.Name) and isinstance(x.ctx, ast.Store)}
-
-    scan = None
-    for n in ast.walk(fn):
-        if (isinstance(n, ast.For) and n.orelse and isinstance(n.target, ast.Tuple) and len(n.target.elts) >= 4
-                and any(isinstance(x, ast.Call) and isinstance(x.func, ast.Name) and x.func.id == "_parse_exception_table"
-                        for x in ast.walk(n.iter))):
-            both = stored(n.body) & stored(n.orelse)
-            if len(both) == 1:
-                scan, depth_var = n, next(iter(both))
-                break
-    if scan is None:
+    from .snippets import find_trim
+    found = find_trim(fn)
+    if found is None:
+        return False
+    _, scan, depth_var, default = found
+    if not (isinstance(scan.target, ast.Tuple) and len(scan.target.elts) >= 4):
         return False
     elts = scan.target.elts
     if not (isinstance(elts[0], ast.Name) and isinstance(elts[1], ast.Name) and isinstance(elts[3], ast.Name)):
@@ -134,7 +137,7 @@ def _trim_fact():
         return False
     ok_body = any(isinstance(x, ast.Assign) and isinstance(x.value, ast.Name) and x.value.id == depth
                   and any(isinstance(tt, ast.Name) and tt.id == depth_var for tt in x.targets) for x in scan.body[0].body)
-    ok_else = all(not isinstance(x, ast.Assign) or (isinstance(x.value, ast.Constant) and x.value.value == 0) for x in scan.orelse)
+    ok_else = all(not isinstance(x, ast.Assign) or (isinstance(x.value, ast.Constant) and x.value.value == 0) for x in default)
     # no other store of the depth variable anywhere in the function
     others = [x for x in ast.walk(fn) if isinstance(x, ast.Name) and isinstance(x.ctx, ast.Store) and x.id == depth_var]
     return bool(ok_body and ok_else and len(others) == 2)
